@@ -213,7 +213,7 @@ func cmdCheck(args []string) int {
 		}
 		vcs = append(vcs, e.verifyFunc(fn, nil))
 	}
-	timeout := 12
+	timeout := 20
 	if *tier == "thorough" {
 		timeout = 90
 	}
